@@ -12,12 +12,13 @@ cleanup() { git -C /repo worktree remove --force "$WT" 2>/dev/null; rm -rf "$WT"
 trap cleanup EXIT
 demo=""; place=""; run=""
 if [ -f "$SRC/main.go" ]; then demo=main.go; place="cmd_demo/main.go"; run="go run ./cmd_demo"; fi
+if [ -d "$SRC/cmd_demo" ]; then demo=cmd_demo; place="cmd_demo"; run="go run ./cmd_demo"; grep -q -- "-tags verif" "$SRC/README.md" && run="go run -tags verif ./cmd_demo"; fi
 for f in "$SRC"/*_test.go; do [ -f "$f" ] || continue; demo="$(basename "$f")"
   pkgdir=$(grep -o '[a-z_]*/zz[A-Za-z0-9_]*_test.go\|[a-z_]*/[A-Za-z0-9_]*demo[A-Za-z0-9_]*_test.go' "$SRC/README.md" | head -1 | xargs -r dirname)
   [ -z "$pkgdir" ] && pkgdir=testcases
   place="$pkgdir/$demo"; run="go test -vet=off -count=1 ./$pkgdir -run ."; done
 [ -n "$demo" ] || { echo "SEED $NAME: no demo found"; exit 3; }
-mkdir -p "$WT/$(dirname "$place")"; cp "$SRC/$demo" "$WT/$place"
+mkdir -p "$WT/$(dirname "$place")"; cp -r "$SRC/$demo" "$WT/$place"
 # the demo must only run itself: restrict go test to the demo's test functions
 if [[ "$demo" == *_test.go ]]; then pat=$(grep -o 'func Test[A-Za-z0-9_]*' "$SRC/$demo" | sed 's/func //' | paste -sd'|'); run="go test -vet=off -count=1 ./$(dirname "$place") -run '^($pat)$'"; fi
 base_ok=0; (cd "$WT" && eval "$run" >/tmp/seed_base.log 2>&1) && base_ok=1
@@ -36,7 +37,7 @@ for p in $PROPS; do
   results="$results{\"property\":\"$p\",\"exit\":${rc:-null},\"signature\":\"$(echo $sig | sed 's/"/\\"/g')\"},"
 done
 if [ $base_ok = 1 ] && [ $build_ok = 1 ] && [ $mut_fail = 1 ] && [ $suite_ok = 1 ]; then
-  D=/verif/seeded/$NAME; mkdir -p "$D"; cp "$SRC/patch.diff" "$SRC/$demo" "$D/"; cp "$SRC/README.md" "$D/README.md" 2>/dev/null
+  D=/verif/seeded/$NAME; mkdir -p "$D"; cp -r "$SRC/patch.diff" "$SRC/$demo" "$D/"; cp "$SRC/README.md" "$D/README.md" 2>/dev/null
   cat > "$D/meta.json" <<EOM
 {"name":"$NAME","breaks":"$(echo $PROPS | cut -d' ' -f1)","demo":"$demo","demo_placement":"$place","demo_cmd":"$run",
  "confirmed":{"demo_passes_unchanged":true,"builds":true,"demo_fails_with_change":true,"stable_suite_passes":true},
